@@ -83,7 +83,7 @@ def main():
     rcb, ob = sh('go build ./...', cwd=d1)
     result['builds'] = (rcb == 0)
     rct, ot = sh('go test -vet=off -count=1 ./... 2>&1 | grep -v "no test files"', cwd=d1, timeout=1500)
-    failed = [l for l in ot.splitlines() if l.startswith('FAIL') or l.startswith('--- FAIL')]
+    failed = [l for l in ot.splitlines() if l.startswith('FAIL\t') or l.startswith('--- FAIL')]
     if failed and all('rtptime' in l or 'TestTime' in l for l in failed):
         rct2, ot2 = sh('go test -count=1 ./rtptime/', cwd=d1)
         if rct2 == 0:
